@@ -130,7 +130,7 @@ def markup_cases():
 
 
 def search():
-    hit = markup_cases() or leak_cases() or preprocessor_exit_case() or command_line_run()
+    hit = markup_cases() or leak_cases() or preprocessor_exit_case() or command_line_run() or cyclic_submodule()
     if hit:
         return hit
     try:
@@ -300,4 +300,25 @@ def command_line_run():
         if got != ["a_good", "c_good"] or "b_bad.f90" not in out.getvalue():
             return {"confirmed": True, "input": {"files": files, "command line": "ford proj.md"}, "actual": {"modules": got, "b_bad.f90 named in the output": "b_bad.f90" in out.getvalue()},
                     "expected": {"modules": ["a_good", "c_good"], "b_bad.f90 named in the output": True}, "how": "ford.initialize() with a real argv, then Project(settings): the truncated file is reported and skipped"}
+    return None
+
+
+def cyclic_submodule():
+    """a parseable file whose submodule names itself (or a descendant) as its parent: FORD terminates and the file is named in the diagnostic"""
+    for label, text in (("its own parent", "submodule (m:sub) sub\ncontains\n  module subroutine s()\n  end subroutine s\nend submodule sub\n"),
+                        ("two submodules naming each other", "submodule (m:two) one\nend submodule one\nsubmodule (m:one) two\nend submodule two\n")):
+        files = dict(GOOD)
+        files["src/m_bad.f90"] = "module m\n  interface\n    module subroutine s()\n    end subroutine s\n  end interface\nend module m\n" + text
+        try:
+            with watchdog(60):
+                tree, ids, log = build(files)
+            msg = log
+        except Timeout:
+            return {"confirmed": True, "input": {"case": label, "file": files["src/m_bad.f90"]}, "actual": "no termination within 60 s", "expected": "terminates", "how": "watchdog around Project(...) + correlate()"}
+        except Exception as e:
+            msg = f"{type(e).__name__}: {e}"
+        # (a cycle between two submodules is a circular dependency of the project, reported by the sorter without a file name: only termination is asked there)
+        if label == "its own parent" and "m_bad.f90" not in msg and "m_bad" not in msg:
+            return {"confirmed": True, "input": {"case": label, "file": files["src/m_bad.f90"]}, "actual": msg[-300:], "expected": "a diagnostic that names m_bad.f90 (or a normal run)",
+                    "how": "Project(...) + correlate() with default settings"} if "Error" in msg or "Traceback" in msg else None
     return None
